@@ -80,7 +80,7 @@ int main (int argc, char** argv)
       {1,0, 0,0, 0,0, 1,0}, {2,0, 0,0, 0,0, 0.5,0}, {1,0, 1,0, 0,0, 1,0}, {0,1, 0,0, 0,0, 0,1}, {0,0, 1,0, -1,0, 0,0},
       {1,2, 3,4, 5,6, 7,8}, {1,0, 2,0, 3,0, 4,0}, {0.6,0, -0.8,0, 0.8,0, 0.6,0}, {1,1, 1,-1, 1,-1, 1,1}, {3,0, 1,2, 1,-2, 2,0},
       {1e3,0, 1,0, 0,0, 1e-3,0}, {0,1, 2,0, 0,0, 0,-1}, {-1,0, 0,0, 0,0, 1,0} };
-    for (auto& m : mats) for (double scale : { 1.0, 1e-8, 1e6 }) {
+    for (auto& m : mats) for (double scale : { 1.0, 1e-8, 1e6, 1e-140, 1e-100, 1e-40, 1e40, 1e100, 1e140 }) {
       Jones<double> j (cd (m[0],m[1])*scale, cd (m[2],m[3])*scale, cd (m[4],m[5])*scale, cd (m[6],m[7])*scale);
       cd d; Quaternion<double,Hermitian> h; Quaternion<double,Unitary> u;
       polar (d, h, u, j);
@@ -97,7 +97,7 @@ int main (int argc, char** argv)
   fn ("hsqrt_boundary_plain", [] {
     const double quads[][4] = { {1,0.6,0,0.8}, {1,0.8,0.6,0}, {3,1,2,2}, {7,2,3,6}, {9,1,4,8}, {1,1,0,0}, {1,0,1,0}, {1,0,0,1}, {0,0,0,0},
                                 {11,2,6,9}, {13,3,4,12}, {15,2,10,11}, {1, 0.28, 0.96, 0}, {1, 0.36, 0.48, 0.8} };
-    for (auto& q : quads) for (double scale : { 1.0, 1e-10, 3e7, 1.0/3, 0.1 }) {
+    for (auto& q : quads) for (double scale : { 1.0, 1e-10, 3e7, 1.0/3, 0.1, 1e-140, 1e-60, 1e60, 1e140 }) {
       Quaternion<double,Hermitian> h (q[0]*scale, q[1]*scale, q[2]*scale, q[3]*scale);
       Quaternion<double,Hermitian> r = sqrt (h);
       char what[200]; snprintf (what, 200, "sqrt of the singular PSD quaternion (%g,%g,%g,%g)*%g is finite", q[0], q[1], q[2], q[3], scale);
@@ -106,6 +106,20 @@ int main (int argc, char** argv)
       if (fin) { Jones<double> rr = r * r, hh = convert (h);
         for (unsigned i=0; i<4; i++) expect (std::string (what) + " and squares back", rr[i], hh[i], 1e-6 * scale + 1e-300); }
     } }, 1);
+  // non-singular PSD quaternions over many scales, double and single precision: the root squares back (relative error)
+  fn ("hsqrt_scales_plain", [] {
+    const double quads[][4] = { {1,0,0,0}, {2,0.5,-0.25,1}, {1,0.3,0.2,-0.1}, {5,3,0,-3.5}, {1,0.6,0,0.79}, {3,-1,2,1.9}, {1,0,0,0.999} };
+    for (auto& q : quads) for (double scale : { 1.0, 1e-3, 1e-6, 1e-8, 1e-9, 1e-12, 1e-30, 1e-100, 1e-140, 1e3, 1e8, 1e30, 1e100, 1e140 }) {
+      Quaternion<double,Hermitian> h (q[0]*scale, q[1]*scale, q[2]*scale, q[3]*scale); Quaternion<double,Hermitian> r = sqrt (h);
+      Jones<double> rr = r * r, hh = convert (h); char what[200];
+      snprintf (what, 200, "sqrt of the PSD quaternion (%g,%g,%g,%g)*%g squares back", q[0], q[1], q[2], q[3], scale);
+      for (unsigned i=0; i<4; i++) expect_true (what, std::abs (rr[i] - hh[i]) <= 1e-12 * scale * q[0]);
+      expect_true (std::string (what) + " (positive semi-definite root)", r.s0 >= 0 && det (r) >= -1e-12 * scale); }
+    for (auto& q : quads) for (float scale : { 1.0f, 1e-2f, 1e-3f, 1e-4f, 1e-6f, 1e-12f, 1e3f, 1e6f, 1e12f }) {
+      Quaternion<float,Hermitian> h (float (q[0])*scale, float (q[1])*scale, float (q[2])*scale, float (q[3])*scale); Quaternion<float,Hermitian> r = sqrt (h);
+      Jones<float> rr = r * r, hh = convert (h); char what[200];
+      snprintf (what, 200, "single precision: sqrt of the PSD quaternion (%g,%g,%g,%g)*%g squares back", q[0], q[1], q[2], q[3], double (scale));
+      for (unsigned i=0; i<4; i++) expect_true (what, std::abs (rr[i] - hh[i]) <= 2e-5f * scale * float (q[0])); } }, 1);
 #endif
   symx::finish ();
   return 0;
